@@ -121,7 +121,8 @@ Definition move_after (g : rga) (prev id t : ticket) : option rga :=
       if loses then
         match find_pos g t with
         | Some _ => Some g
-        | None => insert_position_after g prev t (mkSlot t (Some t) None)
+        | None => (* dead on arrival, because of the newer move: it carries that move's ticket *)
+                  insert_position_after g prev t (mkSlot t (en_moved e) None)
         end
       else
         match insert_position_after g prev t (mkSlot t None (Some id)) with
